@@ -893,7 +893,7 @@ fn has_unresolved_prefixed_name(db: &SparqlDatabase) -> bool {
 
 /// One signature per root cause that the structure of the case makes responsible; the generic
 /// `c13.<fmt>.<phase>` when none applies.
-fn sigs_for(ctx: &LoadCtx, db: &SparqlDatabase) -> Vec<String> {
+fn sigs_for(ctx: &LoadCtx, db: &SparqlDatabase, o: &mut Outcome) -> Vec<String> {
     let mut v: Vec<String> = vec![];
     match ctx.fmt {
         Fmt::N3 => {
@@ -917,6 +917,8 @@ fn sigs_for(ctx: &LoadCtx, db: &SparqlDatabase) -> Vec<String> {
         }
         _ => {}
     }
+    // read in the evidence of a run against the id-clash fix: must be 0 there, otherwise something else hides behind it
+    o.class_if(!v.is_empty() && v.iter().all(|s| s.ends_with("_id_clash")), "n3-mismatch-attributed-to-id-clash-alone");
     if v.is_empty() {
         v.push(format!("c13.{}.{}", ctx.fmt.name(), ctx.phase));
     }
@@ -1033,7 +1035,7 @@ fn check_case(c: &Case) -> Outcome {
             if let Some(d) = diff(&expected, &after) {
                 let alt = union(&before, &lex_set(&t, hash, lit_quotes(fmt), true));
                 let ctx = LoadCtx { fmt, phase: "exact", dict_nonempty, meta: &meta, a_unexpanded: diff(&alt, &after).is_none() };
-                for sig in sigs_for(&ctx, &db) {
+                for sig in sigs_for(&ctx, &db, &mut o) {
                     o.fail(sig, format!("{} document of {} lines/units, {} statements, prior {} quads, {} threads: {d}", fmt.name(), units, t.len(), before.len(), e.threads));
                 }
             }
@@ -1086,7 +1088,7 @@ fn check_case(c: &Case) -> Outcome {
                             let alt = union(&before2, &lex_set(&t, hash, lit_quotes(fmt), true));
                             // from the second piece on the dictionary is never empty
                             let ctx = LoadCtx { fmt, phase: "split", dict_nonempty: true, meta: &agg, a_unexpanded: diff(&alt, &after2).is_none() };
-                            for sig in sigs_for(&ctx, &db2) {
+                            for sig in sigs_for(&ctx, &db2, &mut o) {
                                 o.fail(sig, format!("{} document loaded as {} pieces of at most {} lines/units (prior {} quads, {} threads): {d}", fmt.name(), pieces.len(), agg.units, before2.len(), e.threads));
                             }
                         }
@@ -1134,7 +1136,7 @@ fn check_case(c: &Case) -> Outcome {
                         let own = lex_set(&t2, hash, lit_quotes(f), false);
                         if let Some(d) = diff(&own, &s) {
                             let ctx = LoadCtx { fmt: f, phase: "fresh", dict_nonempty: false, meta: &m2, a_unexpanded: false };
-                            for sig in sigs_for(&ctx, &dbf) {
+                            for sig in sigs_for(&ctx, &dbf, &mut o) {
                                 o.fail(sig, format!("{} rendering of {} statements ({} lines/units) into an empty database, {} threads: {d}", f.name(), t2.len(), m2.units, e.threads));
                             }
                             snaps.push(None);
